@@ -54,7 +54,7 @@ class Oracle:
 class C20(Prop):
     id = "C20"
     props = "C20_Props"
-    coq_files = ("Base", "C20_Consts", "C20_Model", "C20_Spec", "C20_Proofs", "C20_Props")
+    coq_files = ("Base", "C20_Consts", "C20_Model", "C20_Spec", "C20_Proofs", "C20_Names", "C20_Props")
     models = ("C20_Model",)
     packages = {"cmp": PKG, "tr": "internal/tracer", "rs": "internal/app/referenceserver",
                 "rc": "internal/app/referenceclient", "int": "internal"}
@@ -203,6 +203,21 @@ class C20(Prop):
                 for s in usable[a]:
                     if (a, k, s) in orc.cache and orc.cls(a, k, s)[0] != 3:
                         yield ["c20.hist", a, 0, [lit(a, k, s), [5], [7], lit(a, k, comp[(a, TEXT)]), [5], [7]]]
+
+        # ---- F. a source abandoned half-way (large enough that the library has unconsumed input) -----
+        midp = bytes(rng.randrange(256) for _ in range(5000))
+        mids = orc.compress([(a, midp) for a in ALGS])
+        orc.classify([(a, k, c) for a, c in zip(ALGS, mids) for k in (0, 1, 2)])
+        for a, c in zip(ALGS, mids):
+            for k in (0, 1, 2):
+                big_ = lit(a, k, c)
+                good = lit(a, k, comp[(a, TEXT)])
+                nobody = lit(a, 0, b"")
+                for n in (1, 5, 4999):
+                    yield ["c20.hist", a, 0, [big_, [6, n], good, [5]]]
+                    yield ["c20.hist", a, 0, [big_, [6, n], [7], good, [5], [7]]]
+                    yield ["c20.hist", a, 0, [big_, [6, n], [7], nobody, good, [5], [7], nobody, big_, [5], [7]]]
+                    yield ["c20.hist", a, 0, [big_, [6, n], [6, n], [5], [7], big_, [6, 10000], [5]]]
 
         # ---- C. compressor histories, every closed destination decoded on ONE reused decompressor -----
         for a in ALGS:
